@@ -17,9 +17,9 @@ from harness import impl
 from harness.props import c04
 
 PROP = 'C03'
-GENERATED = ['RngConsts', 'GrowOps']
+GENERATED = ['RngConsts', 'GrowOps', 'HistoryWriters']
 DRIVER = 'Drivers/C03.lean'
-DRIVER_MODULES = ['StarsimModel.Model.Slots', 'StarsimModel.Model.Rng', 'StarsimModel.Model.Proto']
+DRIVER_MODULES = ['StarsimModel.Model.Slots', 'StarsimModel.Model.History', 'StarsimModel.Model.Rng', 'StarsimModel.Model.Proto']
 RULE = ('every family of ss.dist_list x parameter mode (scalar / per-agent array / callable) x slot assignment with repeats x '
         'uid request (subset, permuted, single, empty) x earlier sampling history; distinct = distinct (family, mode, slots, request, history); '
         'non-trivial = non-empty request with at least two agents')
@@ -42,11 +42,31 @@ def par_table(fam, n, rng):
     return np.round(0.5 + 3 * r.random(n), 3)
 
 
+class People0(c04.FakePeople):
+    _states = {}
+
+
 class Sim0:
     """ minimal stand-in for the sim a Dist links to (slots are passed explicitly) """
     def __init__(self, slot):
-        self.people = c04.FakePeople(slot)
+        self.people = People0(slot)
         self.ti = 0
+
+
+def container_of(d):
+    """ The real `ss.Dists` container a Module keeps its distributions in (Module.start_step jumps the distributions through
+        `self.dists.jump_dt()`, never through `Dist.jump_dt` directly): holds `d` and a sibling stream.  Built once per dist. """
+    import starsim as ss
+    import sciris as sc
+    c = getattr(d, '_c03_container', None)
+    if c is None:
+        sib = ss.random(); sib.init(trace=str(d.trace) + '_sibling', seed=7, sim=d.sim, slots=d.slots)
+        c = ss.Dists(sc.objdict(main=d, sibling=sib))
+        c.init(sim=d.sim)
+        if not any(x is d for x in c.dists.values()) or len(c.dists) != 2:
+            raise RuntimeError('ss.Dists did not register the distributions of its object')
+        d._c03_container = c
+    return c
 
 
 def make(fam, mode, slots, trace, seed, table=None, req=None):
@@ -72,17 +92,24 @@ def make(fam, mode, slots, trace, seed, table=None, req=None):
     return d
 
 
-def play_history(d, hist, dyn_req=None):
-    """ hist = list of ('jumpdt', ti) / ('draw', n) ; returns protocol lines for the C04 driver.
+def play_history(d, hist, dyn_req=None, via='dist'):
+    """ via = 'dist': timestep jumps through `Dist.jump_dt`; 'container': through the `ss.Dists` container, as Module.start_step does.
+        hist = list of ('jumpdt', ti) / ('draw', n) ; returns protocol lines for the C04 driver.
         A dist with per-agent (array / callable) parameters can only be asked for uids: its history draws
         request `dyn_req` (the amount drawn is irrelevant to where later calls start). """
     import starsim as ss
     lines = []
     for h in hist:
         if h[0] == 'jumpdt':
-            d.jump_dt(ti=h[1]); lines.append(f'jumpdt {h[1]} 0')
+            if via == 'container': container_of(d).jump_dt(ti=h[1])
+            else: d.jump_dt(ti=h[1])
+            lines.append(f'jumpdt {h[1]} 0')
         elif h[0] == 'drawu':
             d.rvs(ss.uids(h[1])); lines.append(f'rvs {int(d.slots[np.asarray(h[1], dtype=int)].max()) + 1 if len(h[1]) else 0} 0')
+        elif h[0] == 'steps':
+            # a long run: `h[2]` consecutive timesteps from h[1], `h[3]` calls in each (what a module does over a long simulation)
+            for i in range(h[2]):
+                lines += play_history(d, [('jumpdt', h[1] + i)] + [('draw', 1 + (i + j) % 3) for j in range(h[3])], dyn_req, via)
         elif h[0] == 'burst':
             # a long earlier history: many more calls than any test makes
             for _ in range(h[1]):
@@ -120,12 +147,37 @@ def gen_case(rng, families):
     modes = ['scalar'] + (['array', 'callable'] if fam in DYN_PAR else []) + (['tp_callable', 'tp_callable'] if fam in TP_CALLABLE else [])
     mode = rng.choice(modes)
     n = rng.randint(4, 25)
-    slots = [rng.randint(0, 3 * n) for _ in range(n)] if rng.random() < 0.6 else list(range(n))
+    hi = 3 * n if rng.random() < 0.9 else rng.choice([1200, 5000, 20000])     # (now and then slots of a large population)
+    slots = [rng.randint(0, hi) for _ in range(n)] if rng.random() < 0.6 else list(range(n))
     k = rng.choice([0, 1, 1, 2, 3, n // 2, n])
     req = rng.sample(range(n), min(k, n))
     if rng.random() < 0.5: req.sort()
     return dict(family=fam, mode=mode, n=n, slots=slots, req=req, trace='d_%d' % rng.randint(0, 10**6),
-                seed=rng.choice([0, 1, 7, 123456]), history=gen_history(rng), tabseed=rng.randint(0, 10**6))
+                seed=rng.choice([0, 1, 7, 123456]), history=gen_history(rng), tabseed=rng.randint(0, 10**6),
+                via=rng.choice(['dist', 'container']))
+
+
+def gen_long_case(rng, families, i):
+    """ Always exercised (fixed count per run): a LONG earlier history -- thousands of calls, i.e. far more than any test of the
+        package makes and beyond any round internal size (the stride, the default capacities) -- either packed into one step or
+        spread over hundreds of steps, with the timestep jumps made through the module-level container. """
+    c = gen_case(rng, families)
+    if c['mode'] == 'array': c['mode'] = 'scalar'        # (an array parameter fixes the request size; histories draw other sizes)
+    calls = [1001, 1200, 1700, 2600, 4100][i % 5] + rng.randint(0, 40)
+    if i % 2 == 0:
+        t1 = calls // 1000 + 3                       # (every call auto-jumps the stream by one: stay ahead of it)
+        hist = [('jumpdt', 1), ('burst', calls), ('jumpdt', t1), ('draw', 2)]
+        ti = t1 + 1
+    else:
+        k = rng.choice([2, 5]); nsteps = calls // k + 1
+        hist = [('steps', 1, nsteps, k)]
+        ti = nsteps + 1
+    hist.append(('jumpdt', ti + rng.randint(0, 2)))
+    for _ in range(rng.choice([0, 1, 2])):
+        hist.append(('draw', rng.choice([1, 3, 11])))
+    c['history'] = hist; c['via'] = 'container'
+    if len(c['req']) == 0: c['req'] = [0, c['n'] - 1]
+    return c
 
 
 def same(a, b):
@@ -166,7 +218,7 @@ def correspond(ctx):
         try:
             d = make(c['family'], c['mode'], slots, c['trace'], c['seed'], table, c['req'])
             ref = make(c['family'], 'scalar', slots, c['trace'], c['seed'])
-            hl = play_history(d, c['history'], None if c['mode'] == 'scalar' else c['req']); play_history(ref, c['history'])
+            hl = play_history(d, c['history'], None if c['mode'] == 'scalar' else c['req'], via=c.get('via', 'dist')); play_history(ref, c['history'])
             pre = d.state_int
             out = d.rvs(ss.uids(c['req']))
         except Exception as e:
@@ -225,6 +277,7 @@ def correspond(ctx):
         ctx.notes['families_not_sampled'] = missing
     correspond_filter(ctx)
     correspond_multi(ctx)
+    correspond_saved_states(ctx)
 
 
 def correspond_filter(ctx):
@@ -263,6 +316,68 @@ def correspond_filter(ctx):
         if exp != p['sel']:
             ctx.broke('correspondence', 'C03.filter', f"bernoulli.filter ({p['mode']} p) selected {p['sel']} but the model selects {exp} from the same uniforms", data=p)
             return
+
+
+def correspond_saved_states(ctx):
+    """ (e) the list of saved generator states (`Dist.history`) vs Model/History.lean: random sequences of calls, resets and
+        (container) jumps on a real distribution; compared: the number of saved states, which of the saved states and the current
+        state coincide with each other (the model's symbolic positions give the equality pattern), and every draw-free position
+        against PCG64(seed).jumped(ind).  Some sequences are long (more than a thousand calls). """
+    import starsim as ss
+    rng = ctx.rng
+    lines = []; plan = []
+    ncase = ctx.budget(30, 200)
+    for i in range(ncase):
+        n = rng.randint(3, 12); slots = np.arange(n)
+        fam = rng.choice(['random', 'normal', 'poisson', 'bernoulli'])
+        seed = rng.randint(0, 10**4); trace = 'h_%d' % rng.randint(0, 10**6)
+        d = getattr(ss, fam)(strict=False, auto=False, **impl.DIST_PARS.get(fam, {}))
+        d.init(trace=trace, seed=seed, sim=Sim0(slots), slots=slots)
+        cont = container_of(d)
+        ops = []; nsaved = 1
+        if i < 3:
+            # long: over a thousand calls, a jump every few calls (so that positions stay short)
+            for t in range(1, rng.randint(260, 420)):
+                ops.append(('j', t)); ops += [('c', rng.randint(1, 3)) for _ in range(rng.randint(3, 5))]
+            ops.append(('j', rng.randint(500, 600)))
+        else:
+            t = 0
+            for _ in range(rng.randint(1, 14)):
+                k = rng.random()
+                if k < 0.5: ops.append(('c', rng.randint(1, 2 * n)))
+                elif k < 0.7: ops.append(('r', rng.randrange(nsaved)))
+                else: t += rng.randint(0, 3); ops.append(('j', t))
+                if ops[-1][0] == 'c': nsaved += 1
+        try:
+            for o, v in ops:
+                if o == 'c': d.rvs(v)
+                elif o == 'r': d.reset(v)
+                else: cont.jump(to=v, force=True)
+            states = [int(h['state']['state']) for h in d.history] + [int(d.state_int)]
+        except Exception as e:
+            ctx.broke('correspondence', 'C03.saved-states', f'ss.{fam}: {type(e).__name__}: {e} during calls / resets / container jumps', data=dict(ops=ops[:40])); return
+        lines.append('hist ' + ','.join(f'{o}{v}' for o, v in ops))
+        plan.append(dict(fam=fam, seed=int(d.seed), ops=ops, states=states))
+    out = ctx.drive(DRIVER, lines)
+    for p, o in zip(plan, out):
+        if not o.startswith('len='):
+            ctx.broke('correspondence', 'C03.saved-states', f'driver answered {o[:60]!r}'); return
+        m = dict(kv.split('=', 1) for kv in o.split())
+        pos = m['hist'].split(';') + [m['cur']]
+        short = dict(ops=p['ops'][:30], n_ops=len(p['ops']), family=p['fam'])
+        ctx.case(('saved', p['fam'], p['seed'], tuple(p['ops'][:50]), len(p['ops'])), len(p['ops']) >= 2, sample=dict(kind='saved-states', family=p['fam'], ops=[f'{a}{b}' for a, b in p['ops'][:12]], n_ops=len(p['ops'])))
+        if int(m['len']) != len(p['states']) - 1:
+            ctx.broke('correspondence', 'C03.saved-states', f"ss.{p['fam']}: {len(p['states']) - 1} saved states after {len(p['ops'])} operations, the model has {m['len']}", data=short); return
+        first = {}
+        for k, (ps, st) in enumerate(zip(pos, p['states'])):
+            ind, draws = ps.split(':')
+            if draws == '-' and c04.ref_state(p['seed'], int(ind)) != st:
+                which = 'current state' if k == len(pos) - 1 else f'saved state {k}'
+                ctx.broke('correspondence', 'C03.saved-states', f"ss.{p['fam']}: {which} is not PCG64({p['seed']}).jumped({ind}) as the model says (after {len(p['ops'])} calls / resets / container jumps)", data=short); return
+            j = first.setdefault(ps, k)
+            if (p['states'][j] == st) != True:
+                ctx.broke('correspondence', 'C03.saved-states', f"ss.{p['fam']}: states {j} and {k} of (saved states + current) should coincide (model position {ps})", data=short); return
+        ctx.count('saved_state_sequences')
 
 
 def correspond_multi(ctx):
@@ -321,9 +436,10 @@ def oracle_case(c):
         table = np.clip(table, 0.01, 0.9)
         if n >= 4: table[0] = 0.0; table[1] = 1.0       # agents that are certainly out / certainly in, next to the others
     allu = list(range(n))
-    def draw(req, hist, slots_=slots):
+    via0 = c.get('via', 'dist')
+    def draw(req, hist, slots_=slots, via=via0):
         d = make(fam, mode, slots_, c['trace'], c['seed'], table, req)
-        play_history(d, hist, None if mode == 'scalar' else req)
+        play_history(d, hist, None if mode == 'scalar' else req, via=via)
         return np.asarray(d.rvs(ss.uids(req)))
     hist = c['history']
     full = draw(allu, hist)
@@ -336,6 +452,7 @@ def oracle_case(c):
         # other history: more/larger draws in earlier steps, same final step and ordinal
         last_jump = max(i for i, h in enumerate(hist) if h[0] == 'jumpdt')
         early = hist[:last_jump]
+        ncalls = sum(h[1] if h[0] == 'burst' else h[2] * h[3] if h[0] == 'steps' else 1 for h in early if h[0] != 'jumpdt')
         early2 = early + [('draw', 50), ('draw', 3)] if early else early
         if early:
             hist2 = [early[0]] + [('draw', 9)] + early[1:] + [('draw', 40)] + hist[last_jump:]
@@ -358,7 +475,11 @@ def oracle_case(c):
         if last_jump > 0:
             sub5 = draw(req, hist[last_jump:])
             if not same(sub5, sub):
-                return dict(signature=dict(sig, relation='history-fresh'), what=f'ss.{fam} ({mode}): values differ from those of a fresh distribution jumped straight to the same step (earlier history of {last_jump} operations)')
+                return dict(signature=dict(sig, relation='history-fresh'), what=f'ss.{fam} ({mode}): values differ from those of a fresh distribution jumped straight to the same step (earlier history of {ncalls} calls, timestep jumps via {via0})')
+        # the same history with the timestep jumps made the other way (module container vs the distribution itself)
+        sub7 = draw(req, hist, via='dist' if via0 == 'container' else 'container')
+        if not same(sub7, sub):
+            return dict(signature=dict(sig, relation='container'), what=f'ss.{fam} ({mode}): values differ between timestep jumps made through the module container (ss.Dists.jump_dt) and through Dist.jump_dt')
         # population size: append agents with larger slots
         big = np.concatenate([slots, slots.max() + 1 + np.arange(7)])
         if mode == 'scalar' or mode == 'callable' or mode == 'array':
@@ -475,6 +596,39 @@ def oracle_extension_births(cfg):
     return None
 
 
+def oracle_long_run(cfg):
+    """ Sim level, real `Module.start_step` path: after a LONG run (every per-step stream has been called more than a thousand
+        times, the transmission streams several thousand times) every distribution of every module, jumped to a later timestep
+        by its module's container, must give the stream of the same distribution in a freshly initialised identical sim jumped
+        to that timestep: what a step draws does not depend on how much was drawn in earlier steps. """
+    a = impl.build_sim(cfg); a.init(); a.run()
+    b = impl.build_sim(cfg); b.init()
+    ti = int(a.t.npts) + cfg.get('probe_ahead', 7)
+    seen = 0; most = 0
+    for ma, mb in zip(a.modules, b.modules):
+        if getattr(ma, 'dists', None) is None or getattr(mb, 'dists', None) is None: continue
+        if type(ma) is not type(mb) or list(ma.dists.dists.keys()) != list(mb.dists.dists.keys()):
+            return dict(signature=dict(oracle='long-run', relation='setup'), what='two builds of the same configuration have different distributions')
+        ma.dists.jump_dt(ti=ti); mb.dists.jump_dt(ti=ti)
+        for tr, da in ma.dists.dists.items():
+            db = mb.dists.dists[tr]
+            seen += 1; most = max(most, int(da.called))
+            xa = np.asarray(da.rng.random(6)); xb = np.asarray(db.rng.random(6))
+            if not same(xa, xb):
+                return dict(signature=dict(oracle='long-run', relation='history-fresh'),
+                            what=f"after a run of {int(a.t.npts)} steps ({int(da.called)} calls) the stream of `{tr}` at timestep {ti} differs from the one a freshly initialised identical sim has at that timestep")
+    if seen == 0 or most <= 1000:
+        return dict(signature=dict(oracle='long-run', relation='setup'), what=f'the long run did not exercise a long history ({seen} distributions, at most {most} calls)')
+    return None
+
+
+def gen_long_run_cfg(rng):
+    net = rng.choice([dict(type='erdosrenyi', p=0.15), dict(type='random', n_contacts=2)])
+    return dict(n_agents=rng.choice([25, 40]), rand_seed=rng.randint(0, 1000), unit='day', dt=1.0, start='2020-01-01',
+                dur=rng.randint(1050, 1250), diseases=[dict(type='sis', beta=0.05, init_prev=0.2, dur_inf=5)], networks=[net],
+                demographics=[], probe_ahead=rng.randint(1, 30))
+
+
 def gen_extension_births_cfg(rng):
     n = rng.choice([80, 120, 160])
     return dict(n_agents=n, rand_seed=rng.randint(0, 1000), unit='year', dt=1.0, start=2000, dur=rng.randint(12, 25),
@@ -510,6 +664,21 @@ def search(ctx):
         ctx.count('oracle_cases')
         if f:
             ctx.fail(f['signature'], f['what'], dict(kind='case', case=c))
+    for i in range(ctx.budget(5, 20)):
+        c = gen_long_case(ctx.rng, families, i)
+        try:
+            f = oracle_case(c)
+        except Exception as e:
+            ctx.count('oracle_exceptions'); ctx.notes['last_long_case_exception'] = f'{type(e).__name__}: {e}'; continue
+        ctx.count('oracle_long_history_cases')
+        if f:
+            ctx.fail(f['signature'], f['what'], dict(kind='case', case=c))
+    for _ in range(ctx.budget(1, 5)):
+        cfg = gen_long_run_cfg(ctx.rng)
+        f = oracle_long_run(cfg)
+        ctx.count('long_runs')
+        if f:
+            ctx.fail(f['signature'], f['what'], dict(kind='long_run', cfg=cfg))
     fixed_durs = [dict(dist='uniform', pars=dict(low=0.0, high=4.0)), dict(dist='poisson', pars=dict(lam=2.0))]
     for i in range(ctx.budget(3, 25) + len(fixed_durs)):
         cfg = gen_extension_cfg(ctx.rng)
@@ -535,6 +704,8 @@ def search(ctx):
 def replay(ctx, data):
     if data.get('kind') == 'case':
         return oracle_case(data['case']) is not None
+    if data.get('kind') == 'long_run':
+        return oracle_long_run(data['cfg']) is not None
     if data.get('kind') == 'extension':
         return oracle_extension(data['cfg']) is not None
     if data.get('kind') == 'extension_births':
